@@ -149,8 +149,12 @@ F_DIRECT = "directPredicateNoResolution"
 F_SEQ = "sequenceNotCollection"
 F_ABSTRACT = "originAbstractABC"
 F_CALLABLE = "callableClassOrigin"
-F_PIPE = "pipeUnionNotSubscripted"
-F_HISTORY = "equalSpellingsShareCache"
+F_REPR = "reprBasedGenericDetection"
+F_CVLIT = "classVarLookThrough"
+BARE_SPECIAL = {"typing.Union", "types.UnionType", "typing.Optional", "typing.Literal", "typing.Final", "typing.ClassVar",
+                "typing.Generic"}
+# not modelled: `types.UnionType.__args__` is a member descriptor, iterating it raises
+UNMODELLED = {("types.UnionType", "isoptionaltype"), ("types.UnionType", "isfixedtupletype")}
 
 
 # ----------------------------------------------------------------------------------------------- annotations: specs and objects
@@ -207,7 +211,7 @@ class Env:
         elif k == "tf":
             o = typing.TypeVar(self.fresh("TV"))
         elif k == "r":
-            o = typing.ForwardRef("Literal[1]" if s[1] else "int")
+            o = typing.ForwardRef(("Literal[1]" if s[2] else "Literal") if s[1] else ("List[int]" if s[2] else "int"))
         else:
             raise ValueError(f"bad spec {s}")
         self.made[id(o)] = s
@@ -289,7 +293,7 @@ def show(s):
     if k == "tf":
         return "TypeVar()"
     if k == "r":
-        return "ForwardRef('Literal[1]')" if s[1] else "ForwardRef('int')"
+        return "ForwardRef(%r)" % (("Literal[1]" if s[2] else "Literal") if s[1] else ("List[int]" if s[2] else "int"))
     return str(s)
 
 
@@ -348,7 +352,7 @@ def build_annotations(ctx, env):
             except Exception:  # noqa: BLE001
                 pass
     specials = [["l", False], ["l", True], ["tf"], ["tb", ["b", "int"]], ["tb", ["b", "user.DC"]],
-                ["tb", ["s", "list", [["b", "int"]]]], ["tc", [["b", "int"], ["b", "str"]]], ["r", False], ["r", True]]
+                ["tb", ["s", "list", [["b", "int"]]]], ["tc", [["b", "int"], ["b", "str"]]], ["r", False, False], ["r", True, True], ["r", False, True]]
     plain = cores + subs
     for s in plain + specials:
         bulk.append(s)
@@ -500,12 +504,19 @@ def oracle(env, inspection, o, spec):
     tyo = typing.get_origin(s) or s
     resolved = DOC_MAP.get(tyo, tyo) if o_hashable(tyo) else tyo
     R = {}
-    cls_valued = isinstance(resolved, type) and isinstance(tyo, type)
+    cls_valued = isinstance(resolved, type) and isinstance(tyo, type) and not isinstance(s, types.UnionType)
     special_callable = cls_valued and (tyo is cabc.Callable or tyo is type)
     R["domain"] = bool(cls_valued and not special_callable)
     R["callable_class"] = bool(cls_valued and not special_callable and issubclass(tyo, cabc.Callable))
     R["resolved"] = env.name_of.get(id(resolved)) if cls_valued else None
     R["wrapped"] = s is not o
+    q = typing.get_origin(o)
+    if q in (typing.Final, typing.ClassVar) and typing.get_args(o):
+        inner = typing.get_args(o)[0]
+        si = o_strip(inner)
+        ti = typing.get_origin(si) or si
+        R["inner_class_valued"] = bool(isinstance(ti, type) and not isinstance(si, types.UnionType))
+        R["inner_plain"] = si is inner
     R["generic_or_mapped"] = (typing.get_origin(s) is not None) or (resolved is not tyo) or not isinstance(s, type)
     if cls_valued:
         exp = {}
@@ -562,24 +573,18 @@ def oracle(env, inspection, o, spec):
     return R
 
 
-# ----------------------------------------------------------------------------------------------- legality of specs
-
-def top_kind(s):
-    return s[0]
-
+# ----------------------------------------------------------------------------------------------- legality / domains of specs
 
 def inner_has_qualifier(s):
-    """Final / ClassVar below the top level (illegal typing), or NewType/alias directly over one."""
+    """Final / ClassVar below the top level, or a NewType / alias / TypeVar bound over one: not legal typing."""
     k = s[0]
-    if k in ("N", "A", "tb"):
-        return s[1][0] in ("F", "C") or inner_has_qualifier(s[1])
-    if k in ("F", "C"):
+    if k in ("N", "A", "tb", "F", "C"):
         return s[1][0] in ("F", "C") or inner_has_qualifier(s[1])
     return False
 
 
 def chain_shape(s):
-    """Leading NewType / alias letters."""
+    """Leading NewType / alias letters, and what they wrap."""
     out = ""
     while s[0] in ("N", "A"):
         out += s[0]
@@ -592,6 +597,25 @@ def direct_ok(shape):
     return re.fullmatch(r"N*A?", shape) is not None
 
 
+def erase_py(env, s):
+    """Spelling erasure, independent of the Lean `erase`: generics on their runtime origin class, unions canonical."""
+    k = s[0]
+    if k == "s":
+        g = env.by_name[s[1]]
+        og = typing.get_origin(g) or g
+        return ["s", env.name_of.get(id(og), s[1]), [erase_py(env, x) for x in s[2]]]
+    if k == "u":
+        ms = [erase_py(env, x) for x in s[2]]
+        if s[1] == "optional":
+            ms = ms + [["b", "NoneType"]]
+        return ["u", "any", sorted(ms, key=json.dumps)]
+    if k in ("F", "C", "N", "A", "tb"):
+        return [k, erase_py(env, s[1])]
+    if k == "tc":
+        return ["tc", [erase_py(env, x) for x in s[1]]]
+    return s
+
+
 # ----------------------------------------------------------------------------------------------- judging (parent)
 
 class Judge:
@@ -601,9 +625,9 @@ class Judge:
 
     def fail(self, kind, what, spec, pred, real, expected, finding=None, **kw):
         self.res.count(("FINDING:" + finding if finding else "FAIL:" + kind) + ":" + pred)
-        key = (kind, pred, finding)
+        key = (kind if not finding else "", pred if not finding else "", finding)
         self.per_kind[key] = self.per_kind.get(key, 0) + 1
-        if self.per_kind[key] > 2:
+        if self.per_kind[key] > (3 if finding else 4):
             return
         f = {"what": what, "input": {"ann": spec, "shown": show(spec), "pred": pred}, "real": real, "expected": expected,
              "kind": kind}
@@ -621,24 +645,29 @@ class Judge:
 
 def model_answer(m, pred):
     v = m["model"].get(pred)
-    if v == "raise":
-        return "raise"
     if pred in ("origin", "unwrap", "resolve_supertype") and isinstance(v, list):
         return canon(v)
     return v
 
 
-def real_norm(pred, a):
+def real_norm(a):
     """Exceptions: the model only says 'raises' (TypeError from issubclass / AttributeError in unwrap)."""
     if isinstance(a, str) and a.startswith("raise:"):
         return "raise"
     return a
 
 
-def judge_one(J, spec, real, m):
+def is_bare_special(spec):
+    """A bare special form (typing.Union, typing.Final, ...) — no annotation — possibly under wrappers."""
+    while spec[0] in ("N", "A", "tb", "F", "C"):
+        spec = spec[1]
+    return spec[0] == "b" and spec[1] in BARE_SPECIAL
+
+
+def judge_one(J, env, spec, real, m):
     res = J.res
     O = real["__oracle__"]
-    shape, core_spec = chain_shape(spec)
+    shape, _core = chain_shape(spec)
     legal = not inner_has_qualifier(spec)
     for p in ALL_PREDS:
         a = real[p]
@@ -649,9 +678,9 @@ def judge_one(J, spec, real, m):
         # ---- correspondence
         if p in MODELLED and m is not None:
             mv = model_answer(m, p)
-            if mv is None:
+            if mv is None or (spec[0] == "b" and (spec[1], p) in UNMODELLED):
                 res.skipped += 1
-            elif real_norm(p, a) != mv:
+            elif real_norm(a) != mv:
                 J.disagree("model vs real", spec, p, a, mv)
             else:
                 res.count("agree:" + ("raise" if mv == "raise" else "value"))
@@ -663,8 +692,6 @@ def judge_one(J, spec, real, m):
         if m["spec"].get("resolved") != O["resolved"]:
             J.disagree("Lean resolvedClass vs the harness's runtime resolution", spec, "resolved", O["resolved"], m["spec"].get("resolved"))
         for p in list(GROUP_A) + list(GROUP_B):
-            if p == "ismappingtype":
-                continue
             if p in m["spec"] and m["spec"][p] is not None and m["spec"][p] != O["expected"][p]:
                 J.disagree("Lean spec vs the harness's runtime oracle", spec, p, O["expected"][p], m["spec"][p])
     # ---- class-valued predicates against the runtime
@@ -677,7 +704,7 @@ def judge_one(J, spec, real, m):
             finding = None
             if O["callable_class"]:
                 finding = F_CALLABLE
-            elif p in GROUP_A and not direct_ok(shape):
+            elif p in GROUP_A and not direct_ok(shape) and real_norm(a) == "raise":
                 finding = F_ALIAS
             elif p == "issequencetype" and isinstance(a, bool):
                 finding = F_SEQ
@@ -695,8 +722,12 @@ def judge_one(J, spec, real, m):
                        spec, "origin", sc, "instantiable subclass of the annotation's origin", fin)
     else:
         res.count("outside:class-valued-on-special-form")
-    # ---- special-form predicates on the object itself; domain: D1 objects and the special forms themselves
-    sf_domain = O["domain"] or shape == ""
+    # ---- special-form predicates, judged on the object itself; domain: class-valued annotations and the special forms
+    #      themselves (not NewType / alias wrappers around special forms; not the bare special forms, which are no annotations)
+    k = spec[0]
+    plain = k in ("b", "s", "u", "l", "tf", "tc", "r")
+    qualified = k in ("F", "C") and (O.get("inner_class_valued") or O.get("inner_plain"))
+    sf_domain = (O["domain"] or plain or qualified or k == "tb") and not is_bare_special(spec)
     if sf_domain:
         for p, e in O["special"].items():
             a = real[p]
@@ -704,49 +735,44 @@ def judge_one(J, spec, real, m):
                 res.count("oracle:special:ok")
                 continue
             finding = None
-            if O.get("callable_class") or (spec == ["b", "type"]):
+            if O.get("callable_class") or spec == ["b", "type"]:
                 finding = F_CALLABLE
-            elif p == "issubscriptedgeneric" and spec[0] == "u" and spec[1] == "pipe":
-                finding = F_PIPE
+            elif p in ("issubscriptedgeneric", "isgeneric") and ((k == "u" and spec[1] == "pipe") or k == "r"):
+                finding = F_REPR
+            elif k == "C" and p in ("should_unwrap", "isliteral", "isuniontype"):
+                finding = F_CVLIT
             J.fail("special-form", f"{p} disagrees with typing.get_origin/get_args on the object", spec, p, a, e, finding)
-    # ---- unwrap: strips every wrapper (legal nestings), idempotent by construction of the oracle
-    if real["unwrap"] == O["unwrap"]:
-        res.count("oracle:unwrap:ok")
+        # unwrap: strips every wrapper and returns the wrapped annotation itself
+        if real["unwrap"] == O["unwrap"]:
+            res.count("oracle:unwrap:ok")
+        else:
+            fin = F_CVLIT if k == "C" else None
+            J.fail("unwrap", "unwrap() did not return the wrapped annotation itself", spec, "unwrap", real["unwrap"], O["unwrap"], fin)
+        if spec[0] in ("s", "u", "l", "F", "C"):
+            if real["args"] == O["args"]:
+                res.count("oracle:args:ok")
+            else:
+                J.fail("args", "args() differs from typing.get_args with TypeVars normalised", spec, "args", real["args"], O["args"])
     else:
-        J.fail("unwrap", "unwrap() did not return the wrapped annotation itself", spec, "unwrap", real["unwrap"], O["unwrap"])
-    if real["args"] == O["args"]:
-        res.count("oracle:args:ok")
-    elif not (isinstance(real["args"], str)):
-        # bare generics: typelib falls back on __args__ (documented for Dict -> ()); only subscripted forms are compared
-        if typing_args_comparable(spec):
-            J.fail("args", "args() differs from typing.get_args with TypeVars normalised", spec, "args", real["args"], O["args"])
-
-
-def typing_args_comparable(spec):
-    return spec[0] in ("s", "u", "l", "F", "C")
+        res.count("outside:special-form-predicate-on-wrapped-special-form")
 
 
 # ----------------------------------------------------------------------------------------------- evaluation
 
-def chunked(xs, n):
-    n = max(1, n)
-    return [xs[i::n] for i in range(n)]
-
-
-def evaluate(ctx, res, bulk, fams):
+def evaluate(ctx, res, env, bulk, fams):
     core.import_typelib()
     J = Judge(res)
-    # spelled variants never share a child: bucket by (hash of spec) but keep typing / builtin spellings apart
+    # spelled variants never share a child: typing / builtin spellings go to different buckets
     buckets = {}
     for s in bulk:
         txt = json.dumps(s)
-        key = ("T" if "typing." in txt else "B", hash(txt) % 12)
+        key = ("T" if "typing." in txt else "B", sum(map(ord, txt)) % 12)
         buckets.setdefault(key, []).append(s)
     jobs = [{"specs": v} for v in buckets.values()]
     # union families: cold per spelling, and both orders
     fam_jobs = []
+    fams = [[s for s in fam if s is not None] for fam in fams]
     for fi, fam in enumerate(fams):
-        fam = [s for s in fam if s is not None]
         for i, s in enumerate(fam):
             fam_jobs.append(({"specs": [s]}, (fi, "cold", i)))
         for i in range(len(fam)):
@@ -760,8 +786,7 @@ def evaluate(ctx, res, bulk, fams):
             raise RuntimeError(f"harness: child crashed: {o}")
     res.programs += len(all_jobs)
     # the model, once per distinct spec
-    specs = []
-    seen = {}
+    specs, seen = [], {}
     for j in all_jobs:
         for s in j["specs"]:
             t = json.dumps(s)
@@ -773,26 +798,46 @@ def evaluate(ctx, res, bulk, fams):
         if "bad" in a:
             raise RuntimeError(f"harness: driver rejected {s}: {a}")
     model = {json.dumps(s): a for s, a in zip(specs, answers)}
-    # bulk
+    groups = {}
     for j, o in zip(jobs, outs[:len(jobs)]):
         for s, real in zip(j["specs"], o):
-            judge_one(J, s, real, model[json.dumps(s)])
-    # families
+            judge_one(J, env, s, real, model[json.dumps(s)])
+            if direct_ok(chain_shape(s)[0]) and not inner_has_qualifier(s):
+                groups.setdefault(json.dumps(erase_py(env, s)), []).append((s, real))
+    # spelling invariance over generics: typing alias vs class vs ABC spelling of the same annotation
+    for key, members in groups.items():
+        if len(members) < 2:
+            continue
+        dom = members[0][1]["__oracle__"]["domain"]
+        for p in SPELLING_INVARIANT:
+            if (p in GROUP_A or p in GROUP_B) and not dom:
+                continue
+            vals = [r[p] for _, r in members]
+            if all(v == vals[0] for v in vals):
+                res.count("oracle:spelling-invariant:ok")
+            else:
+                fin = None
+                if any(m["__oracle__"].get("callable_class") for _, m in members):
+                    fin = F_CALLABLE
+                J.fail("spelling", f"{p} depends on the spelling of the same annotation", members[0][0], p,
+                       {show(s): r[p] for s, r in members}, "one answer", fin)
+    # union families
     cold = {}
     fouts = outs[len(jobs):]
     for (j, tag), o in zip(fam_jobs, fouts):
         if tag[1] == "cold":
             cold[(tag[0], tag[2])] = o[0]
-            judge_one(J, j["specs"][0], o[0], model[json.dumps(j["specs"][0])])
+            judge_one(J, env, j["specs"][0], o[0], model[json.dumps(j["specs"][0])])
+    class_valued = set(GROUP_A) | set(GROUP_B) | {"issubscriptedcollectiontype", "isbuiltinsubtype", "isstdlibsubtype"}
     for fi, fam in enumerate(fams):
-        fam = [s for s in fam if s is not None]
-        # spelling invariance (cold answers)
         for p in SPELLING_INVARIANT:
+            if p in class_valued:
+                continue            # class-valued predicates on a union: outside the domain
             vals = [cold[(fi, i)][p] for i in range(len(fam))]
             if all(v == vals[0] for v in vals):
                 res.count("oracle:spelling-invariant:ok")
             else:
-                fin = F_PIPE if p == "issubscriptedgeneric" else None
+                fin = F_REPR if p == "issubscriptedgeneric" else None
                 J.fail("spelling", f"{p} depends on the spelling of the same union", fam[0], p,
                        {show(s): v for s, v in zip(fam, vals)}, "one answer", fin)
     for (j, tag), o in zip(fam_jobs, fouts):
@@ -801,14 +846,15 @@ def evaluate(ctx, res, bulk, fams):
         fi, (i, k) = tag[0], tag[2]
         second = o[1]
         for p in ALL_PREDS:
-            if p in ("origin", "unwrap", "resolve_supertype", "args"):
+            if p in ("origin", "unwrap", "resolve_supertype", "args") or p in class_valued:
                 continue
             c = cold[(fi, k)][p]
             if second[p] == c:
                 res.count("oracle:history-independent:ok")
             else:
+                fin = F_REPR if p in ("isgeneric", "issubscriptedgeneric", "name", "qualname") else None
                 J.fail("history", f"{p}: the answer for one spelling changes after the equal-but-distinct spelling was asked",
-                       j["specs"][1], p, second[p], c, F_HISTORY, asked_first=show(j["specs"][0]))
+                       j["specs"][1], p, second[p], c, fin, asked_first=show(j["specs"][0]))
     return J
 
 
@@ -822,7 +868,7 @@ def explore(ctx):
     from typelib.py import inspection
     env = Env(inspection)
     bulk, fams = build_annotations(ctx, env)
-    evaluate(ctx, res, bulk, fams)
+    evaluate(ctx, res, env, bulk, fams)
     return res
 
 
@@ -833,14 +879,9 @@ def witness(fid):
 def replay(failure):
     inp = failure["input"]
     res = Result()
-
-    class C:
-        rng = __import__("random").Random(0)
-        tier = "quick"
-
-        def n(self, q, t):
-            return q
-    evaluate(C(), res, [inp["ann"]], [])
+    core.import_typelib()
+    from typelib.py import inspection
+    evaluate(None, res, Env(inspection), [inp["ann"]], [])
     fs = [f for f in res.failures if f["input"]["pred"] == inp["pred"]]
     print(json.dumps({"annotation": inp.get("shown"), "failures": fs[:4], "disagreements": res.disagreements[:4]}, indent=1,
                      default=str)[:4000])
